@@ -120,8 +120,12 @@ func (t *ReuseConnTransport) exchangeConnCtx(ctx context.Context, payload []byte
 	}
 	resChan := make(chan res, 1)
 
+	// The goroutine may outlive this call (ctx is done first) and the caller
+	// releases payload when it returns. So the goroutine works on its own copy.
+	p := pool.CopyBuf(payload)
 	go func() {
-		resp, err := t.exchangeConn(payload, c)
+		resp, err := t.exchangeConn(p, c)
+		pool.ReleaseBuf(p)
 		resChan <- res{m: resp, err: err}
 		t.releaseConn(c, err)
 	}()
